@@ -6,7 +6,7 @@
    of a net whose primitives (sync.Once, sync.Mutex, atomics, channels, fun.WaitGroup) are modelled, not verified. *)
 From FunV Require Import Base.Tac Model.Wrappers Model.LaunchNet.
 From FunV Require Import Proofs.Wrappers_retry Proofs.Wrappers_limit Proofs.Wrappers_order Proofs.Wrappers_joinp.
-From FunV Require Import Proofs.Wrappers_lock Proofs.Wrappers_once_net Proofs.Wrappers_limit_net Proofs.Wrappers_launch_net.
+From FunV Require Import Proofs.Wrappers_lock Proofs.Wrappers_once_net Proofs.Wrappers_adt_once Proofs.Wrappers_limit_net Proofs.Wrappers_launch_net.
 Local Open Scope Z_scope.
 
 (* ================================================================== sequential, full *)
@@ -208,6 +208,24 @@ Theorem once_exactly_once_all_see_result :
 Proof. exact once_net_proof. Qed.
 Print Assumptions once_exactly_once_all_see_result.
 
+(* adt.Once (Do / Resolve / Called transcribed; `called` is set before the constructor runs): a Do or Resolve return
+   step is enabled only after the body's completion step — whoever has returned did so after the single execution
+   finished, and Resolve returned its result. *)
+Theorem adt_once_do_waits :
+  forall R s, areach false R s ->
+  (a_execs s <= 1)%nat /\
+  (forall t, a_pc s t = ADoneDo -> a_done s = true /\ a_execs s = 1%nat) /\
+  (forall t v, a_pc s t = ADoneRes v -> a_done s = true /\ a_execs s = 1%nat /\ v = R).
+Proof. exact adt_once_do_waits_proof. Qed.
+Print Assumptions adt_once_do_waits.
+
+(* a Do with an `if o.Called() { return }` fast path: a second caller returns while the first is inside the constructor *)
+Theorem adt_once_do_waits_fast_path_refuted :
+  areach true 7 adt_fast_state /\ a_pc adt_fast_state 2 = ADoneDo /\ a_done adt_fast_state = false /\
+  a_pc adt_fast_state 1 = AMarked false.
+Proof. exact adt_once_fast_path_refuted. Qed.
+Print Assumptions adt_once_do_waits_fast_path_refuted.
+
 (* limitExec under contention: op runs at most n times and never twice at once; at quiescence it has run exactly
    min(n, calls) times; cached-output invariant: a call that did not run op returned the n-th execution's result (the
    fast path is taken only after the counter reached n, which is stored after the output), a call that ran op
@@ -222,11 +240,20 @@ Theorem limit_concurrent_runs_min_n_calls :
 Proof. exact limit_net_proof. Qed.
 Print Assumptions limit_concurrent_runs_min_n_calls.
 
+(* Operation.Limit with its Load / CompareAndSwap RETRY loop (Load and CAS are separate steps; a lost CAS re-reads) *)
 Theorem limit_concurrent_runs_min_n_calls_operation :
-  forall n, 0 < n -> forall s, creach n s ->
+  forall n, 0 < n -> forall s, creach true n s ->
   Z.of_nat (c_runs s) <= n /\ (c_active s = [] -> Z.of_nat (c_runs s) = Z.min n (Z.of_nat (c_calls s))).
 Proof. exact limit_cas_net_proof. Qed.
 Print Assumptions limit_concurrent_runs_min_n_calls_operation.
+
+(* without the retry (`current < n && CAS(current, current+1)`) a caller that loses the CAS is turned away: a quiescent
+   reachable state with 2 calls, limit 2 and 1 execution *)
+Theorem limit_concurrent_operation_noretry_refuted :
+  creach false 2 cas_noretry_state /\ c_active cas_noretry_state = [] /\
+  c_calls cas_noretry_state = 2%nat /\ c_runs cas_noretry_state = 1%nat.
+Proof. exact limit_cas_noretry_refuted. Qed.
+Print Assumptions limit_concurrent_operation_noretry_refuted.
 
 (* Lock / WithLock never run two executions at once *)
 Theorem lock_mutual_exclusion :
@@ -270,7 +297,8 @@ Print Assumptions startgroup_waiter_waits.
 Theorem trace_replays_are_runs :
   (forall R evs s, replay (once_tr R) oinit evs = Some s -> oreach R s) /\
   (forall n evs s, replay (limit_tr n) linit evs = Some s -> lreach n idval s) /\
-  (forall n all evs s, replay (climit_tr n all) cinit evs = Some s -> creach n s) /\
+  (forall n all evs s, replay (climit_tr n all) cinit evs = Some s -> creach true n s) /\
+  (forall R res evs s, replay (adt_tr R res) ainit evs = Some s -> areach false R s) /\
   (forall evs s, replay lock_tr minit evs = Some s -> mreach s) /\
   (forall evs s, replay signal_tr sinit evs = Some s -> sreach true s) /\
   (forall R evs s, replay (send_tr R) vinit evs = Some s -> vreach R s) /\
@@ -280,6 +308,7 @@ Proof.
   - exact once_replay_sound.
   - exact limit_replay_sound.
   - exact climit_replay_sound.
+  - exact adt_replay_sound.
   - exact lock_replay_sound.
   - exact signal_replay_sound.
   - exact send_replay_sound.
